@@ -223,7 +223,8 @@ def theorem_domain(ctx):
     return mism
 
 
-KEYWISE_THEOREMS = ['Nbdime.C06_model_keywise', 'Nbdime.C06_model_different_keys', 'Nbdime.apply_keywise_obj', 'Nbdime.C09_model_keywise_all']
+KEYWISE_THEOREMS = ['Nbdime.C06_model_keywise', 'Nbdime.C06_model_different_keys', 'Nbdime.apply_keywise_obj', 'Nbdime.C09_model_keywise_all',
+                    'Nbdime.C06_model_cells', 'Nbdime.C06_notebook_cells', 'Nbdime.apply_cells_only', 'Nbdime.C09_model_cells_choose']
 THEOREMS.extend(t for t in KEYWISE_THEOREMS if t not in THEOREMS)
 
 
@@ -323,11 +324,116 @@ def keywise_domain(ctx):
     return mism
 
 
+def cells_edit_case(rng):
+    """every cell is edited by one side or by nobody; no cell is inserted, deleted or moved and nothing outside the cells
+    changes: the shape of C06_model_cells (expected result by construction)"""
+    minor = rng.choice([4, 5, 5])
+    used = set()
+    base = gen_nb.gen_notebook(rng, minor, ncells=0)
+    n = rng.choice([2, 3, 4, 5, 7])
+    base['cells'] = [gen_nb.long_cell(rng, minor, used) for _ in range(n)]
+    l, r, e = copy.deepcopy(base), copy.deepcopy(base), copy.deepcopy(base)
+    owners = [rng.choice(['local', 'remote', 'none']) for _ in range(n)]
+    owners[rng.randrange(n)] = 'local'
+    acts = []
+    for i, c in enumerate(base['cells']):
+        if owners[i] == 'none':
+            acts.append((owners[i], 'leave'))
+            continue
+        act = rng.choice(['source', 'source', 'metadata', 'outputs', 'rerun']) if c['cell_type'] == 'code' else rng.choice(['source', 'metadata'])
+        newc = copy.deepcopy(c)
+        if act == 'source':
+            lines = newc['source'].splitlines(True)
+            q = rng.randrange(len(lines)) if lines else 0
+            if lines:
+                body = lines[q].rstrip('\r\n')
+                lines[q] = body + ' # by ' + owners[i] + lines[q][len(body):]
+                newc['source'] = ''.join(lines)
+            else:
+                newc['source'] = 'line by ' + owners[i]
+        else:
+            gen_nb.edit_cell(rng, newc, act)
+        (l if owners[i] == 'local' else r)['cells'][i] = copy.deepcopy(newc)
+        e['cells'][i] = copy.deepcopy(newc)
+        acts.append((owners[i], act))
+    for nb in (base, l, r, e):
+        if not gen_nb.is_valid(nb):
+            return None
+    return base, l, r, e, {'owners': owners, 'actions': acts, 'kind': 'cells-edit'}
+
+
+def cellwise_domain(ctx):
+    """cell-edit cases through the implementation and through the Lean merger + applier; the decidable hypothesis
+    `Merge.cellwise` of C06_model_cells is evaluated by the driver. Inside the domain the theorem says
+    apply(decide(base, ld, rd)) = patch(patch(base, ld), rd) for the model; the implementation has to return the notebook
+    built by construction, without conflicts, and has to agree with the model."""
+    import random
+    from checks import mergemodel
+    rng = random.Random('C06/cellwise/%s/%d' % (ctx.tier, ctx.seed))
+    combos = [mergelib.Args('inline'), mergelib.Args('mergetool'), mergelib.Args('use-local'), mergelib.Args('union', 'inline', 'remove'),
+              mergelib.Args('inline', 'use-base', 'clear-all')]
+    cases, reqs = [], []
+    for t in range(40 if ctx.tier == 'quick' else 600):
+        c = cells_edit_case(rng)
+        if c is None:
+            continue
+        b, l, r, e, info = c
+        a = combos[t % len(combos)]
+        data = {'kind': 'owned', 'b': enc(b), 'l': enc(l), 'r': enc(r), 'expected': enc(e), 'info': info, 'strategy': a.key(), 'helper': 'builtin'}
+        with mergelib.renderer('builtin'):
+            res = mergelib.run_merge(b, l, r, a)
+        ctx.case('c' + canon(b) + canon(l) + canon(r) + json.dumps(a.key()), True)
+        ctx.count('cells-edit case')
+        if res[0] != 'ok':
+            ctx.violation('merge of edits to different cells raised %s' % res[2], dict(data, kind='raises'))
+            continue
+        if mergelib.has_conflict(res[2]):
+            ctx.violation('edits to different cells are reported as a conflict (%s) under %s' % (info['actions'], a.key()), data)
+        elif canon(res[1]) != canon(e):
+            ctx.violation('merge of edits to different cells is not base with both sets of changes applied (%s)' % (info['actions'],), dict(data, got=enc(res[1])))
+        try:
+            nb, ld, rd, S = mergemodel.notebook_case(b, l, r, a)
+        except Exception:
+            continue
+        with mergelib.renderer('builtin'):
+            dres, req = mergemodel.impl_decide(nb, ld, rd, S)
+        cases.append((dres, data, e))
+        reqs += [req, dict(req, want='cellwise')]
+    replies = vlib.Driver().run(reqs) if reqs else []
+    mism = []
+    for i, (dres, data, e) in enumerate(cases):
+        rep, cw = replies[2 * i], replies[2 * i + 1]
+        ctx.cov['traces_validated_against_impl'] += 1
+        inside = cw.get('ok') is True
+        ctx.count('theorem-domain:cellwise' if inside else 'theorem-domain:cellwise-outside (an edited cell was not aligned / numeric alias)')
+        if not mergemodel.same(dres, rep):
+            mism.append({'stream': 'merge-model', 'tag': 'cells-edit', 'difference': mergemodel.first_difference(dres, rep), 'case': data})
+            continue
+        if inside:
+            merged, both = cw.get('merged', {}), cw.get('both', {})
+            if 'ok' in merged and 'ok' in both:
+                ctx.cov['theorem_hypothesis_checks'] = ctx.cov.get('theorem_hypothesis_checks', 0) + 1
+                if canon(dec(merged['ok'])) != canon(dec(both['ok'])):
+                    raise vlib.Infra('driver contradicts C06_model_cells')
+                for a_, b_ in (('as_local', 'local'), ('as_remote', 'remote')):
+                    # C09_model_cells_choose: choosing a side for every decision = that side's patch
+                    if 'ok' in cw.get(b_, {}) and ('ok' not in cw.get(a_, {}) or canon(dec(cw[a_]['ok'])) != canon(dec(cw[b_]['ok']))):
+                        raise vlib.Infra('driver contradicts C09_model_cells_choose (%s)' % b_)
+                for side_, nb_ in (('as_local', data['l']), ('as_remote', data['r'])):
+                    if 'ok' in cw.get(side_, {}) and canon(dec(cw[side_]['ok'])) != canon(dec(nb_)):
+                        mism.append({'stream': 'merge-model', 'tag': 'cells-edit-' + side_, 'difference': {'model_side_selection_differs_from_the_side': side_}, 'case': data})
+                if canon(dec(merged['ok'])) != canon(plain(e)):
+                    mism.append({'stream': 'merge-model', 'tag': 'cells-edit-applied', 'difference': {'model_merged_differs_from_expected': True}, 'case': data})
+    ctx.cov['correspondence_mismatches'] = ctx.cov.get('correspondence_mismatches', 0) + len(mism)
+    return mism
+
+
 def run(ctx):
     from checks import mergemodel
     _run_property(ctx)
     mism = theorem_domain(ctx)
     mism += keywise_domain(ctx)
+    mism += cellwise_domain(ctx)
     mergemodel.tie(ctx, (40, 40, 400, 500), MERGE_MODEL_THEOREMS)
     mergemodel.report(ctx, mism, MERGE_MODEL_THEOREMS)
 
